@@ -346,6 +346,14 @@ func (v *Visitor) EnterField(ref int) {
 		Info:        v.resolveFieldInfo(ref, fieldDefinitionTypeRef, onTypeNames),
 	}
 
+	// the introspection data source serves plain JSON keyed by field names (it never sees the
+	// operation), so below __schema / __type the value of an aliased field lives under the name of
+	// the field; the alias is only the response name
+	jsonKey := v.Operation.FieldAliasOrNameString(ref)
+	if bytes.HasPrefix(v.Walker.EnclosingTypeDefinition.NameBytes(v.Definition), []byte("__")) {
+		jsonKey = v.Operation.FieldNameString(ref)
+	}
+
 	if bytes.Equal(fieldName, literal.TYPENAME) {
 		typeName := v.Walker.EnclosingTypeDefinition.NameBytes(v.Definition)
 		isRootQueryType := v.Definition.Index.IsRootOperationTypeNameBytes(typeName)
@@ -359,13 +367,13 @@ func (v *Visitor) EnterField(ref int) {
 		} else {
 			str := &resolve.String{
 				Nullable:   false,
-				Path:       []string{v.Operation.FieldAliasOrNameString(ref)},
+				Path:       []string{jsonKey},
 				IsTypeName: true,
 			}
 			v.currentField.Value = str
 		}
 	} else {
-		path := []string{v.Operation.FieldAliasOrNameString(ref)}
+		path := []string{jsonKey}
 		v.currentField.Value = v.resolveFieldValue(ref, fieldDefinitionTypeRef, true, path)
 	}
 
